@@ -144,6 +144,8 @@ def binop(I, op, a, b):
         return merge(a.cond, binop(I, op, a.a, b), binop(I, op, a.b, b))
     if isinstance(b, Phi):
         return merge(b.cond, binop(I, op, a, b.a), binop(I, op, a, b.b))
+    if isinstance(op, ast.MatMult) and isinstance(a, Vec) and isinstance(b, Vec):
+        return _math(I, "dot")(a, b)           # a @ b on arrays is numpy.matmul = dot for 1-D / 2-D operands
     if isinstance(a, Vec) or isinstance(b, Vec):
         if isinstance(a, Vec) and isinstance(b, Vec):
             # shape abstraction: a Vec is the leading (material) axis; elements that mention an
@@ -596,6 +598,10 @@ def iterate(I, v):
         m = v.cls.lookup("__iter__")
         if m is not _MISSING:
             return iterate(I, I.call(BoundMethod(m, v), [], {}))
+    if isinstance(v, ClassVal) and getattr(v, "enum_members", None) is not None:
+        return list(v.enum_members.values())
+    if isinstance(v, NTuple):
+        return list(v)
     if v is None or (_alg(v) and not any(s in I.arrays for s in to_expr(v).free_symbols)):
         raise SymRaise("TypeError", "object is not iterable")
     if _alg(v):
@@ -608,6 +614,20 @@ def iterate(I, v):
 def subscript(I, base, key):
     if isinstance(base, Phi):
         return merge(base.cond, subscript(I, base.a, key), subscript(I, base.b, key))
+    if isinstance(base, ReObj) and type(base.obj).__name__ == "Match":
+        k = int(key) if isinstance(key, sp.Integer) else key
+        if not isinstance(k, (str, int)):
+            raise AnalysisError("match[...] with a symbolic key")
+        try:
+            return base.obj[k]
+        except IndexError:
+            raise SymRaise("IndexError", "no such group")
+    if isinstance(base, ClassVal) and getattr(base, "enum_members", None) is not None:
+        if not isinstance(key, str):
+            raise AnalysisError("Enum[...] with a symbolic name")
+        if key not in base.enum_members:
+            raise SymRaise("KeyError", key)
+        return base.enum_members[key]
     if isinstance(base, (list, tuple, str)):
         if isinstance(key, slice):
             return base[key]
@@ -714,9 +734,27 @@ def _vflat(x):
     return [x]
 
 
+_PYTYPES = ("str", "list", "tuple", "dict", "set", "frozenset", "float", "int", "complex", "bool", "object", "NoneType", "bytes",
+            "ndarray")
+
+
 def value_attr(I, obj, name):
     """Attributes / methods of plain values."""
     from . import peg
+    if isinstance(obj, Builtin) and obj.name in _PYTYPES and I.builtins.get(obj.name) is obj:
+        # a builtin type object: its name, its MRO, and its methods unbound (str.split, dict.get, ...)
+        if name in ("__name__", "__qualname__"):
+            return obj.name
+        if name == "__mro__":
+            chain = {"bool": ("bool", "int", "object"), "object": ("object",)}.get(obj.name, (obj.name, "object"))
+            for nm in chain:
+                if nm not in I.builtins:
+                    I.builtins[nm] = Builtin(nm, None)
+            return tuple(I.builtins[nm] for nm in chain)
+        if name == "__module__":
+            return "builtins"
+        if not name.startswith("__"):
+            return Builtin(f"{obj.name}.{name}", lambda self_, *a, **k: I.call(I.getattr(self_, name), list(a), dict(k)))
     if isinstance(obj, peg.PE):
         m = obj.methods(I)
         if name in m:
@@ -908,6 +946,23 @@ def value_attr(I, obj, name):
     if isinstance(obj, NTuple):
         if name in obj._fields:
             return obj[obj._fields.index(name)]
+        kls = getattr(obj, "_cls", None)
+        if kls is not None and name not in ("_fields", "_asdict", "_replace"):
+            cv = kls.lookup(name)
+            if cv is not _MISSING:
+                if isinstance(cv, PropertyVal):
+                    if cv.fget is None:
+                        raise SymRaise("AttributeError", name)
+                    return I.call(cv.fget, [obj], {})
+                if isinstance(cv, Closure):
+                    return BoundMethod(cv, obj)
+                if isinstance(cv, tuple) and cv and cv[0] == "static":
+                    return cv[1]
+                if isinstance(cv, tuple) and cv and cv[0] == "classmethod":
+                    return BoundMethod(cv[1], kls)
+                return cv
+            if name == "__class__":
+                return kls
         if name == "_fields":
             return obj._fields
         if name == "_asdict":
@@ -919,6 +974,8 @@ def value_attr(I, obj, name):
                     raise SymRaise("ValueError", f"unexpected field names {bad}")
                 t = NTuple([kw.get(f, v) for f, v in zip(obj._fields, obj)])
                 t._fields, t._tname = obj._fields, obj._tname
+                if getattr(obj, "_cls", None) is not None:
+                    t._cls = obj._cls
                 return t
             return Builtin("_replace", _replace)
     if isinstance(obj, (tuple, list, dict, str, Vec)) and name in ("__getitem__", "__contains__", "__len__", "__iter__") \
@@ -1225,6 +1282,13 @@ def make_builtins(I):
         cs = c if isinstance(c, tuple) else (c,)
         for k in cs:
             if isinstance(k, ClassVal):
+                if isinstance(x, NTuple) and getattr(x, "_cls", None) is not None:
+                    q = [x._cls]
+                    while q:
+                        cc = q.pop()
+                        if cc is k:
+                            return True
+                        q.extend(cc.bases)
                 if isinstance(x, SymObj) and x.cls is not None:
                     q = [x.cls]
                     while q:
@@ -1430,7 +1494,30 @@ def make_builtins(I):
     reg("print", lambda *a, **k: None)
     reg("bool", lambda x=False: _pb(truth(I, x)))
     reg("callable", lambda x: isinstance(x, (Closure, Builtin, BoundMethod, ClassVal)))
-    reg("type", lambda x: x.cls if isinstance(x, SymObj) and x.cls is not None else Builtin(type(x).__name__, None))
+    def b_type(x):
+        if isinstance(x, SymObj) and x.cls is not None:
+            return x.cls
+        if isinstance(x, NTuple) and getattr(x, "_cls", None) is not None:
+            return x._cls
+        if x is None:
+            nm = "NoneType"
+        elif isinstance(x, bool) or x is sp.true or x is sp.false:
+            nm = "bool"
+        elif isinstance(x, (str, StrSym)):
+            nm = "str"
+        elif isinstance(x, (list, tuple, dict, set, frozenset)):
+            nm = next(t.__name__ for t in (list, tuple, dict, set, frozenset) if isinstance(x, t))
+        elif isinstance(x, Vec):
+            nm = "ndarray"
+        elif _alg(x):
+            e = to_expr(x)
+            nm = "int" if e.is_Integer else ("complex" if e.has(sp.I) else "float")
+        else:
+            nm = type(x).__name__
+        if nm not in B:
+            B[nm] = Builtin(nm, None)        # one object per type name, so that types compare by identity
+        return B[nm]
+    reg("type", b_type)
     reg("map", lambda f, *its: GenVal([I.call(f, list(t), {}) for t in zip(*[iterate(I, x) for x in its])]))
     reg("object", lambda: I.new_obj("object"))
     reg("round", lambda x, n=None: (sp.Integer(round(float(to_expr(x)))) if n is None else to_expr(round(float(to_expr(x)), concrete_int(n))))
@@ -1522,6 +1609,12 @@ def external(I, dotted):
         return ModuleVal(dotted, external=dotted)
     if dotted in ("weakref.WeakValueDictionary", "weakref.WeakKeyDictionary"):
         return Builtin(dotted, lambda *a, **k: WeakDict())
+    if dotted == "enum.auto":
+        return Builtin(dotted, lambda: I.new_obj("enum.auto()"))
+    if dotted in ("enum.unique", "typing.final", "typing.runtime_checkable"):
+        return Builtin(dotted, lambda c: c)
+    if dotted == "operator.methodcaller":
+        return Builtin(dotted, lambda nm, *a, **k: Builtin("methodcaller", lambda x: I.call(I.getattr(x, nm), list(a), dict(k))))
     if dotted == "operator.itemgetter":
         return Builtin(dotted, lambda *ks: Builtin("itemgetter", (lambda x: subscript(I, x, ks[0])) if len(ks) == 1
                                                    else (lambda x: tuple(subscript(I, x, k_) for k_ in ks))))
